@@ -56,8 +56,9 @@ MoveRel(s, d) ==
     /\ LET base == IF HasEntry("move", s) THEN queue[EntryIdx("move", s)].r ELSE own[s]
            new  == Shift(base, d)
        IN  IF HasEntry("add", s)
-           THEN /\ queue' = [queue EXCEPT ![EntryIdx("add", s)].r = new]     \* setNewPoly on the queued add; no processing
-                /\ UNCHANGED <<scene, ends, steps, own>>
+           THEN /\ queue' = [queue EXCEPT ![EntryIdx("add", s)].r = new]     \* setNewPoly on the queued add: the shape's own polygon
+                /\ own' = [own EXCEPT ![s] = new]                              \* changes at once; no processing
+                /\ UNCHANGED <<scene, ends, steps>>
            ELSE Commit(IF HasEntry("move", s) THEN [queue EXCEPT ![EntryIdx("move", s)].r = new]
                        ELSE Append(queue, [t |-> "move", s |-> s, r |-> new]), own)
     /\ am' = IF HasEntry("add", s) THEN [am EXCEPT ![s] = am[s] + 1] ELSE am
@@ -85,8 +86,8 @@ SetTxn(b) == /\ txn # b /\ queue = <<>> /\ txn' = b /\ UNCHANGED <<scene, ends, 
 QueueWellFormed ==
     /\ \A i \in DOMAIN queue, j \in DOMAIN queue : (i # j /\ queue[i].t # "conn" /\ queue[j].t # "conn") => queue[i].s # queue[j].s
     /\ txn \/ queue = <<>>
-\* when nothing is pending the router's scene is what the calls add up to -- except for the one
-\* deviation of the code this model reproduces: a second relative move of a shape whose add is still
-\* queued starts again from the shape's own polygon (moves of a just-added shape do not accumulate)
-SceneIsWhatWasAskedFor == queue = <<>> => (ends = wantEnds /\ \A s \in ShapeIds : scene[s] = want[s] \/ (scene[s] # NoRect /\ want[s] # NoRect /\ am[s] >= 2))
+\* when nothing is pending the router's scene is what the calls add up to
+\* (a first version of this model let relative moves of a just-added shape start again from the original
+\*  polygon; trace validation against the real Router rejected that: setNewPoly updates the shape at once)
+SceneIsWhatWasAskedFor == queue = <<>> => (ends = wantEnds /\ scene = want)
 =============================================================================
